@@ -44,6 +44,9 @@ def known_key(case):
 
 
 SPEC = {
+    # code 2 = within the stated float tolerance but not bit-identical (or, for _shift_to_cone_interior, a
+    # different but valid shift amount): information only, as documented in design.d
+    "structure_code": 2,
     "known_key": known_key,
     "props_file": "C15.v",
     "targets": ["theories/Props/C15.vo", "theories/Cones/Check.vo"],
